@@ -22,7 +22,9 @@ META = {
             "no directory / early exit: --help --version --list --describe) x --max-workers <= 0 x non-integer path:line x directory "
             "exists x SARIF (none|one|two of one tool|missing|malformed: bad JSON, no runs, a directory) x missing file per result option "
             "(sonar issues, hotspots, defectdojo, contrast) x AI env (unset / both empty / exactly one of key, endpoint for Azure OpenAI or Llama) x "
-            "--output (none / writable / missing parent / a directory / parent is a file / read-only place / /dev/full / write failing half-way by injection); single deviations from the "
+            "shape of the target tree (one file, empty, only sub-directories, only non-Python files, only default-excluded files, a symlinked file only, "
+            "a dangling symlink, undecodable/unreadable files, a 40-level deep tree, 25 files) x kind of run (plain, --dry-run, SAST result files given, "
+            "--codemod-include selecting nothing; thorough: default codemods) x --output (none / writable / missing parent / a directory / parent is a file / read-only place / /dev/full / write failing half-way by injection); single deviations from the "
             "nominal run exhaustively, then pairs and random combinations; each realised by a real CLI run; non-trivial = not the nominal world",
     "trusted": [
         "argparse decides which argument vectors are refused (oracle: the harness builds one vector per class and observes the status)",
@@ -120,17 +122,36 @@ class Realiser:
         (shared / "afile.txt").write_text("x")
 
     def realise(self, w, variant=None, minimal=False):
-        """-> dict(argv, env, out (Path|None), label); minimal: no optional decoration, first realisation of each class"""
+        """-> dict(argv, env, out (Path|None), label); minimal: no optional decoration, first realisation of each class.
+        variant "tree:<shape>:<mode>" fixes the shape of the target tree and the kind of run (see TREE_SHAPES, RUN_MODES)"""
         rng = _First() if minimal else self.rng
         self.n += 1
         d = self.root / f"run{self.n}"
         proj = d / "proj"
-        core.write_tree(proj, TINY)
         label = []
+        shape, mode = "one_file", "plain"
+        if isinstance(variant, str) and variant.startswith("tree:"):
+            _, shape, mode = variant.split(":")
+            variant = None
+        elif not minimal and not w["bad_line"] and w["dir_exists"] and self.rng.random() < 0.35:
+            # the status does not depend on what the target tree contains (a non-integer `path:line` item only bites
+            # when its path matches a processed file, so those worlds keep the one-file tree)
+            shape, mode = self.rng.choice(list(TREE_SHAPES)), self.rng.choice(RUN_MODES)
+        build_tree(proj, d, shape)
+        if shape != "one_file":
+            label.append(f"target tree: {shape}")
         target = str(proj) if w["dir_exists"] else str(d / "no_such_dir")
         if not w["dir_exists"]:
             label.append("target directory missing")
-        argv = [target] + TRIVIAL
+        argv = [target] + (["--codemod-include", "pixee:python/no-such-codemod,acme:*"] if mode == "select_nothing" else TRIVIAL)
+        if mode != "plain":
+            label.append(f"run mode: {mode}")
+        if mode == "dry_run":
+            argv += ["--dry-run"]
+        if mode == "default_codemods":
+            argv = [target]
+        if mode == "sast_files" and w["sarif"] == 0:
+            argv += ["--sonar-issues-json", str(self.shared / "issues.json"), "--sarif", str(self.shared / "semgrep1.sarif")]
         env = {}
         for k in ("CODEMODDER_AZURE_OPENAI_API_KEY", "CODEMODDER_AZURE_OPENAI_ENDPOINT", "CODEMODDER_AZURE_LLAMA_API_KEY",
                   "CODEMODDER_AZURE_LLAMA_ENDPOINT", "CODEMODDER_OPENAI_API_KEY"):
@@ -157,7 +178,7 @@ class Realiser:
             kind = rng.choice(["bad.sarif", "noruns.sarif", "DIR"])
             argv += ["--sarif", str(self.shared) if kind == "DIR" else str(self.shared / kind)]
             label.append(f"malformed SARIF ({kind})")
-        elif rng.random() < 0.3:
+        elif rng.random() < 0.3 and mode != "sast_files":
             argv += ["--sarif", str(self.shared / "semgrep1.sarif")]
         # other result files
         for field, opt, good in (("miss_issues", "--sonar-issues-json", "issues.json"), ("miss_hotspots", "--sonar-hotspots-json", "hotspots.json"),
@@ -168,7 +189,7 @@ class Realiser:
                     vals.insert(rng.randint(0, 1), str(self.shared / good))
                 argv += [opt, ",".join(vals)]
                 label.append(f"missing {opt} file")
-            elif rng.random() < 0.25:
+            elif rng.random() < 0.25 and not (mode == "sast_files" and field == "miss_issues"):
                 argv += [opt, str(self.shared / good)]
         # AI environment
         if not w["ai_consistent"]:
@@ -223,6 +244,67 @@ class Realiser:
             label.append(flag)
         return {"argv": argv, "env": env, "out": out, "label": "; ".join(label) or "nominal", "dir": d, "inject": inject}
 
+
+RUN_MODES = ["plain", "dry_run", "sast_files", "select_nothing"]     # + "default_codemods" (thorough only: runs semgrep)
+
+
+def build_tree(proj: Path, d: Path, shape: str):
+    """the target directory in one of the shapes of TREE_SHAPES"""
+    proj.mkdir(parents=True, exist_ok=True)
+    TREE_SHAPES[shape](proj, d)
+
+
+def _t_one_file(proj, d):
+    core.write_tree(proj, TINY)
+
+
+def _t_empty(proj, d):
+    pass
+
+
+def _t_dirs_only(proj, d):
+    (proj / "src" / "pkg").mkdir(parents=True)
+    (proj / "docs").mkdir()
+
+
+def _t_non_python_only(proj, d):
+    core.write_tree(proj, {"README.md": "# nothing to see\n", "data/values.txt": "1\n2\n", "Makefile": "all:\n\ttrue\n"})
+
+
+def _t_excluded_only(proj, d):
+    core.write_tree(proj, {"tests/test_a.py": "x = set([1, 2])\n", "tests/unit/test_b.py": "y = set([3])\n"})
+
+
+def _t_symlink_only(proj, d):
+    core.write_tree(d / "outside", {"real.py": "x = set([1, 2])\n"})
+    os.symlink(d / "outside" / "real.py", proj / "link.py")
+
+
+def _t_dangling_symlink(proj, d):
+    os.symlink(d / "outside" / "gone.py", proj / "dangling.py")
+
+
+def _t_unreadable(proj, d):
+    (proj / "b.py").write_bytes(b"\xff\xfe\x00x = set([1, 2])\n")     # not decodable (holds for root too)
+    core.write_tree(proj, {"locked.py": "x = set([1, 2])\n"})
+    os.chmod(proj / "locked.py", 0)                                       # unreadable unless root
+
+
+def _t_deep(proj, d):
+    deep = proj
+    for i in range(40):
+        deep = deep / f"d{i}"
+    core.write_tree(deep, {"a.py": "x = set([1, 2])\n"})
+    core.write_tree(proj, {"top.py": "y = set([3])\n"})
+
+
+def _t_many(proj, d):
+    core.write_tree(proj, {f"pkg/m{i}.py": f"x{i} = set([{i}])\n" for i in range(25)})
+
+
+TREE_SHAPES = {"one_file": _t_one_file, "empty": _t_empty, "dirs_only": _t_dirs_only, "non_python_only": _t_non_python_only,
+               "excluded_only": _t_excluded_only, "symlink_only": _t_symlink_only, "dangling_symlink": _t_dangling_symlink,
+               "unreadable": _t_unreadable, "deep": _t_deep, "many_files": _t_many}
 
 UNWRITABLE = ["missing_parent", "is_directory", "parent_is_file", "readonly", "dev_full"]
 
@@ -370,7 +452,19 @@ def gen_worlds(ctx):
                 w = dict(NOMINAL)
                 w[a], w[b] = va, vb
                 worlds.append((f"allpairs:{a}={va},{b}={vb}", w, None))
-    n_random = 14 if ctx.quick() else 150
+    # the shape of the target tree x the kind of run: the status (and the report) must not depend on it
+    modes = RUN_MODES + ([] if ctx.quick() else ["default_codemods"])
+    for shape in TREE_SHAPES:
+        for mode in modes:
+            if shape == "one_file" and mode == "plain":
+                continue
+            worlds.append((f"tree:{shape}:{mode}", dict(NOMINAL), f"tree:{shape}:{mode}"))
+    # ... and the failing dimensions on trees without a processable file
+    for shape, dev in (("empty", {"write_ok": 0}), ("dirs_only", {"miss_issues": 1}), ("non_python_only", {"ai_consistent": 0}),
+                       ("excluded_only", {"sarif": 1}), ("empty", {"write_ok": 0, "write_partial": 1}), ("dirs_only", {"output": 0}),
+                       ("empty", {"argparse": 1}), ("symlink_only", {"miss_contrast": 1})):
+        worlds.append((f"tree+fault:{shape}", dict(NOMINAL, **dev), f"tree:{shape}:plain"))
+    n_random = 8 if ctx.quick() else 150
     if getattr(ctx, "deep", False):
         n_random *= 3
     for _ in range(n_random):
@@ -422,8 +516,8 @@ def run(ctx: core.Ctx):
             worlds.append((f"counterexample:{name}", w, None))
     jobs = []
     for label, w, variant in worlds:
-        j = real.realise(w, variant, minimal=label.startswith(("corpus", "counterexample", "nominal")))
-        j["world"], j["origin"] = w, label
+        j = real.realise(w, variant, minimal=label.startswith(("corpus", "counterexample", "nominal", "tree")))
+        j["world"], j["origin"], j["variant"] = w, label, variant
         jobs.append(j)
     with ThreadPoolExecutor(max_workers=min(12, core.NCPU)) as ex:
         obs = list(ex.map(run_one, jobs))
@@ -447,16 +541,18 @@ def run(ctx: core.Ctx):
             ctx.count(f"deviation:{f}")
         ctx.case({"world": {f: w[f] for f in deviations(w)}, "argv": [a if len(a) < 80 else "..." + a[-60:] for a in j["argv"]],
                   "status": rc, "escaped_exception": tb, "output_path_after": rep},
-                 nontrivial_key=(tuple(code_of(w)), j["label"]) if deviations(w) else None, sample=len(deviations(w)) == 2)
+                 nontrivial_key=(tuple(code_of(w)), j["label"]) if (deviations(w) or j["label"] != "nominal") else None, sample=len(deviations(w)) == 2)
         # measured clause (independent of model and spec): a non-zero status never comes with a complete report
         if rc != 0 and rep == 2:
             ctx.violation("kf_exit_nonzero_with_report", f"[{j['label']}] exit status {rc} although a complete report was written to {j['out']}",
-                          {"world": w, "realisation": j["label"], "observed": {"status": rc, "output_path_after": rep}})
+                          {"world": w, "realisation": j["label"], "variant": j.get("variant"),
+                           "argv": [x.replace(str(j["dir"]), "<run>").replace(str(real.shared), "<shared>") for x in j["argv"]],
+                           "observed": {"status": rc, "output_path_after": rep}})
     bad = core.eval_bad_indices(ctx, "c20_exit", IMPORTS, "exit_case", cases, ["exit_model_ok", "exit_spec_ok"])
 
     def payload(i):
         j, (rc, tb, rep, err) = jobs[i], obs[i]
-        return {"world": j["world"], "realisation": j["label"],
+        return {"world": j["world"], "realisation": j["label"], "variant": j.get("variant"),
                 "argv": [a.replace(str(j["dir"]), "<run>").replace(str(real.shared), "<shared>") for a in j["argv"]],
                 "env": {k: v for k, v in j["env"].items() if v},
                 "observed": {"status": rc, "escaped_exception": tb, "output_path_after": ["nothing", "incomplete file", "complete report"][rep]},
